@@ -110,7 +110,8 @@ fn bound_for(units: usize, thorough: bool) -> u32 {
 fn writer_inputs() -> Vec<(String, Vec<u8>, usize)> {
     let mut v = vec![];
     // 6 units + 5 bytes: more units than the writers queue ahead (their send_work_unit waits while four are queued)
-    for n in [0usize, 1, UNIT, UNIT + 1, 2 * UNIT, 3 * UNIT + 5, 6 * UNIT + 5] {
+    // 10 units: more finished results can pile up behind one slow unit than any bound derived from worker count + queue depth
+    for n in [0usize, 1, UNIT, UNIT + 1, 2 * UNIT, 3 * UNIT + 5, 6 * UNIT + 5, 10 * UNIT] {
         v.push((format!("in{n}"), scen::text_input(n, 17), n.div_ceil(UNIT)));
     }
     v
@@ -127,6 +128,13 @@ fn valid_readers(thorough: bool) -> Vec<(Scenario, u32)> {
                 v.push((s, bound_for(*units, thorough)));
             }
         }
+    }
+    // slow consumer: the caller does something else between two reads
+    for workers in [2u32, 3] {
+        let s = reader("unc9/slow-consumer", Kind::R2 { preset: None }, scen::stream_unc_units(9), None, workers, 4096);
+        v.push((s, 1));
+        let s = reader("m7/slow-consumer", Kind::RL, scen::stream_lzip(&[10, 20, 0, 30, 40, 5, 60]).0, None, workers, 4096);
+        v.push((s, 1));
     }
     // worker limits 0 and u32::MAX
     for w in [0u32, u32::MAX] {
@@ -174,6 +182,29 @@ fn valid_writers(thorough: bool) -> Vec<(Scenario, u32)> {
                     v.push((s, b));
                 }
             }
+        }
+    }
+    // slow producer: the caller writes one unit per call and does something else in between (a free scheduling point), so
+    // that workers can finish many later units while an earlier one is still being compressed, without the caller ever
+    // entering its back-pressure wait
+    // (one preemption is needed to park a worker in the middle of its unit; the data is period-48 text, cheap to encode)
+    for kind in [Kind::W2, Kind::WL] {
+        for (workers, units) in [(2u32, 9usize), (3, 10)] {
+            if workers == 3 && !thorough {
+                continue;
+            }
+            // 1.5 M schedules per scenario at bound 1 (measured: 8 min on 16 cores for both writers): thorough tier only;
+            // the quick tier explores the 2^units yield choices without preemption
+            let bound = if thorough { 1 } else { 0 };
+            let mut ops = vec![];
+            for _ in 0..units {
+                ops.push(WOp::Write(UNIT));
+                ops.push(WOp::Yield);
+            }
+            let pat = scen::text_input(48, 3);
+            let input: Vec<u8> = pat.iter().cycle().take(units * UNIT).copied().collect();
+            let s = writer(&format!("in{units}u/slow-producer"), kind.clone(), input, ops, workers);
+            v.push((s, bound));
         }
     }
     if thorough {
@@ -551,7 +582,7 @@ fn mutant_variants(thorough: bool) -> Vec<(Scenario, u32)> {
 }
 
 pub fn menu(prop: &str, thorough: bool) -> Vec<(Arc<Scenario>, u32)> {
-    let v: Vec<(Scenario, u32)> = match prop {
+    let mut v: Vec<(Scenario, u32)> = match prop {
         "C08" => {
             let mut v = valid_readers(thorough);
             v.extend(valid_writers(thorough));
@@ -574,5 +605,9 @@ pub fn menu(prop: &str, thorough: bool) -> Vec<(Arc<Scenario>, u32)> {
         }
         _ => vec![],
     };
+    // development aid: explore only the scenarios whose description contains the given text
+    if let Ok(f) = std::env::var("VERIF_SCEN_FILTER") {
+        v.retain(|(s, _)| s.desc().contains(&f));
+    }
     v.into_iter().map(|(s, b)| (Arc::new(s), b)).collect()
 }
